@@ -16,6 +16,9 @@ EXPLANATION = (
     "IrType::bytes; T4 the four places that default an unconstrained literal all say i32 / f64; T5 in the MIR lowerer no lazily lowered "
     "operand value is held un-stored across the visit of another sub-expression (so `x + { x = 10; x }` reads x first)."
 )
+EXPLANATION += (
+    ' T6 the control-flow constants of the lowerer (which switch index means true / Some / continue) and the literal default types by name.'
+)
 ASSUMPTIONS = [
     "cranelift's documented instruction semantics (iadd wraps, sdiv truncates toward zero, IntCC/FloatCC meanings)",
     "control-flow lowering and the rest of code generation are not decided by this check",
